@@ -280,7 +280,16 @@ pub fn pick_versions(db: &LayoutDb, beh: &Beh, idx: usize, nver: usize, seed: u6
 	if all.is_empty() {
 		return vec![];
 	}
-	let bounds: Vec<(u8, u8)> = db.class_boundaries().into_iter().filter(|b| all.contains(b)).collect();
+	// the first version of every layout class and the last version of the class before it
+	let mut bounds: Vec<(u8, u8)> = vec![];
+	for b in db.class_boundaries() {
+		if b.1 > 0 && all.contains(&(b.0, b.1 - 1)) && !bounds.contains(&(b.0, b.1 - 1)) {
+			bounds.push((b.0, b.1 - 1));
+		}
+		if all.contains(&b) && !bounds.contains(&b) {
+			bounds.push(b);
+		}
+	}
 	let mut out: Vec<(u8, u8)> = vec![];
 	let mut r = Rng::keyed(seed, idx as u64, 0x7E5);
 	if nver >= all.len() {
@@ -384,7 +393,10 @@ fn cmd_replay_beh(a: &Args) {
 						ctx.c17(&canon, &mut viols)
 					}
 					"c08" => ctx.c08_insertions(&o, &mut viols),
-					"c17ins" => ctx.c17_insertions(&o, &mut viols),
+					"c17ins" => {
+						ctx.c17_insertions(&o, &mut viols);
+						ctx.c17_sizes(&o, &mut viols)
+					}
 					"debug" => {
 						let dir = std::path::PathBuf::from(format!("{}/dump-{}-{}-{}", sink.replay_dir, std::process::id(), idx, vi));
 						ctx.debug_dump(&dir, &mut viols)
